@@ -157,6 +157,13 @@ def ax(funcs, kinds=None):
     return rule
 
 
+def ax_kinds(kinds):
+    def rule(repo, col):
+        rules_axis.emit(col, repo, funcs=None, kinds=set(kinds))
+    rule.__name__ = 'axis_sinks_%s' % '_'.join(sorted(kinds))
+    return rule
+
+
 def _texts(*mods, **extra):
     out = {}
     for m in mods:
@@ -165,9 +172,12 @@ def _texts(*mods, **extra):
     return out
 
 
+from . import rules_extra  # noqa: E402
 ALL_TEXT = _texts(rules_err, rules_validator, rules_text, rules_subset,
                   rules_hdf5, rules_canon, rules_effects, rules_axis,
                   rules_table)
+for _k, _v in rules_extra.RULE_TEXT.items():
+    ALL_TEXT.setdefault(_k, ' '.join((_v or '').split()))
 SCIPY_TRUST = ('scipy: csr is row-major / csc column-major, sum(axis=0) is '
                'per column, hstack grows columns, conversions preserve '
                'values and may return self, astype copies by default')
@@ -310,3 +320,28 @@ PROPS['C01']['rules'].append(ax(['Table.from_hdf5']))
 PROPS['C02']['rules'].append(ax(['Table.from_json']))
 PROPS['C01']['rule_texts'].update(rules_axis.RULE_TEXT)
 PROPS['C02']['rule_texts'].update(rules_axis.RULE_TEXT)
+
+
+# ---- rules added after the independent seeded changes ----------------------
+X = rules_extra
+PROPS['C01']['rules'] += [X.rule_h5_sections, X.rule_parsers_identity]
+PROPS['C04']['rules'] += [X.rule_h5_sections]
+PROPS['C03']['rules'] += [X.rule_tsv_isfloat,
+                          ax(['Table.delimited_self', 'Table.to_tsv'])]
+PROPS['C05']['rules'] += [X.rule_update_ids_precheck,
+                          ax_kinds(['DDICT', 'MAJOR', 'TRUTH', 'REINDEX'])]
+PROPS['C02']['rules'] += [ax(['Table.to_json'])]
+PROPS['C07']['rules'] += [X.rule_cast_metadata, ax_kinds(['DDICT'])]
+PROPS['C11']['rules'] += [X.rule_partition_ignore_none]
+PROPS['C13']['rules'] += [X.rule_norm_divisor]
+PROPS['C14']['rules'] += [X.rule_json_slicer_order,
+                          X.rule_requested_ids_cast]
+PROPS['C15']['rules'] += [rules_validator.rule_written_constants]
+PROPS['C16']['rules'] += [ax_kinds(['DDICT', 'MAJOR', 'TRUTH', 'REINDEX'])]
+PROPS['C17']['rules'] += [X.rule_cast_metadata,
+                          X.rule_adjacency_accumulates, X.rule_mdsize_guard]
+PROPS['C19']['rules'] += [X.rule_minmax, X.rule_md_dataframe_order]
+PROPS['C20']['rules'] += [X.rule_mdsize_guard]
+for _p in ('C01', 'C03', 'C04', 'C14', 'C15', 'C16', 'C20', 'C02', 'C07'):
+    for _k, _v in ALL_TEXT.items():
+        PROPS[_p]['rule_texts'].setdefault(_k, _v)
